@@ -36,13 +36,17 @@ Lemma superblock_buf_len (file : list N) :
   blen (firstn 128 file ++ zeros (N.to_nat (128 - N.min (blen file) 128))) = 128.
 Proof. unfold blen. rewrite app_length, firstn_length, length_zeros. blia. Qed.
 
-Lemma dec_superblock_np file : np (dec_superblock file).
+(* both variants of the superblock sizes switch *)
+Lemma dec_superblock_gen_np rep file : np (dec_superblock_gen rep file).
 Proof.
-  unfold dec_superblock. cbv zeta.
+  unfold dec_superblock_gen. cbv zeta.
   pose proof (superblock_buf_len file) as Hb. bnorm.
   set (buf := firstn 128 file ++ _) in *. clearbody buf.
-  np_go.
+  destruct rep; np_go.
 Qed.
+
+Lemma dec_superblock_np file : np (dec_superblock file).
+Proof. apply dec_superblock_gen_np. Qed.
 
 (* ------------------------------------------------------------------ dataspace *)
 
